@@ -24,13 +24,20 @@ interpreters whose gate is held open.
 Binding A: TLC explores Secure.tla and prints every transition with the
 expected observation; each behaviour is replayed as a program on
 Interpreter(secure, legacy) and after every action the harness projects the
-reachable function values, the base flag, the OS events and the canary.
+reachable function values, the base flag, the OS events and the canary.  The
+behaviours include the host constructing OTHER interpreters in the same process
+before or after this one (the gate's decision must be this interpreter's own),
+bundled modules required under spellings with a directory part, and `require`
+of module specs that name no module.
 Binding B: every symbol of every bundled module (qualified and unqualified)
-and of the base environment is invoked with path-like / command-like argument
-tuples in secure interpreters.  All observations of secure interpreters (A and
-B, plus direct calls of the binder) are validated by TLC against
-Secure_Trace.tla; what it rejects are the violations.  Differences between the
-model's prediction and the code that the statement does not name are drift.
+and of the base environment is invoked with the argument tuples of CallShapes
+in secure interpreters; `require` is handed the module specs of
+SecureOps!ForeignSpecs (prefix x traversal x target x clause x module path);
+the command line front ends are started with every option set and a probe
+program.  All observations of secure interpreters (A and B, plus direct calls
+of the binder) are validated by TLC against Secure_Trace.tla; what it rejects
+are the violations.  Differences between the model's prediction and the code
+that the statement does not name are drift.
 """
 import ast
 import concurrent.futures as cf
